@@ -109,6 +109,37 @@ def _apply(acc, case):
         acc.fail(key, msg, c)
 
 
+def _apply_seq(acc, case):
+    transport, T, R = case["transport"], case["T"], case["R"]
+    acc.case()
+    acc.nontrivial("seq", transport, case.get("keep"), T, R, repr(case["steps"]))
+    results, world, errors, protocol = netcase.run_sequence(case)
+    reqs = [r for r in results if r.kind != "closed"]
+    if len(reqs) < 2:
+        return
+    last = reqs[-1]
+    if last.hang is not None or last.kind.startswith("harness"):
+        acc.fail("C04|%s|after-prior|hang" % transport, "second request never completes: %r %r" % (last.hang, last.exc), case)
+        return
+    if last.kind not in OK_OUTCOMES:
+        acc.fail("C04|%s|after-prior|outcome-type|%s" % (transport, last.kind), "execute() ended with %r" % (last.exc,), case)
+    if len(last.tx) > R + 1:
+        acc.fail("C04|%s|after-prior|too-many-transmissions" % transport, "%d transmissions with retries=%d" % (len(last.tx), R), case)
+    disturbed = any(last.t0 + EPS < d[0] <= last.t_end + EPS for d in world.deliveries)
+    if disturbed or last.connects and any(o != "ok" for _t, o in last.connects):
+        acc.cls("after-prior|stale-delivery-during-second")
+        return
+    times = [t - last.t0 for t, *_ in last.tx]
+    want = [i * T for i in range(R + 1)]
+    if len(times) != R + 1 or any(abs(a - b) > EPS for a, b in zip(times, want)):
+        acc.fail("C04|%s|after-prior|silent-schedule" % transport, "after a first request scripted %s the silent second request was transmitted at %s, expected %s" % (
+            case["steps"][0]["script"], times, want), case)
+    elif abs(last.t_end - last.t0 - (R + 1) * T) > EPS:
+        acc.fail("C04|%s|after-prior|silent-failure-time" % transport, "failure reported after %r, expected %r" % (last.t_end - last.t0, (R + 1) * T), case)
+    elif last.kind not in ("MaxRetriesException", "RequestFailedException"):
+        acc.fail("C04|%s|after-prior|silent-outcome" % transport, "silent peer gave outcome %s" % last.kind, case)
+
+
 # ---------------------------------------------------------------------------------------------
 def enum_job(job):
     transport, keep, T, R, mode = job
@@ -119,6 +150,29 @@ def enum_job(job):
             for idx in range(R + 1):
                 for d in (0, 4, 15):
                     case = {"transport": transport, "keep": keep, "T": T, "R": R, "script": [["drop"]] * idx + [["exc", d, code]], "latency": 0}
+                    _apply(acc, case)
+                    _apply(acc, dict(case, api=True))
+        return acc
+    if mode == "after-prior":
+        # the request under test is the SECOND one on the object: whatever happened to the first (every script of length
+        # R+1), a silent inverter still sees exactly R+1 transmissions spaced T and the failure one timeout after the last
+        pal = palette(transport)
+        for script in itertools.product(pal, repeat=R + 1):
+            for gap in ("idle", None):
+                steps = [{"op": "request", "script": [list(a) for a in script]}]
+                if gap:
+                    steps.append({"op": gap})
+                steps.append({"op": "request", "script": [], "command": ["aa55", "010200", "0182"] if transport == "aa55" else ["read", 36000, 7]})
+                case = {"transport": transport, "keep": keep, "T": T, "R": R, "latency": 0, "steps": steps, "sequence": True}
+                _apply_seq(acc, case)
+        return acc
+    if mode == "cuts":
+        # every length of a first piece (1..16 bytes: shorter than, equal to and longer than each framing's header), alone,
+        # followed by the remainder, or followed by a restart - on the first transmission and on a retransmission
+        for cut in range(1, 17):
+            for act in (["lone", cut, 2], ["frag", cut, 2, 5], ["pieces", [["head", cut, 2], ["head", cut + 1, 4]]], ["pieces", [["head", cut, 1], ["full", 3]]]):
+                for idx in range(R + 1):
+                    case = {"transport": transport, "keep": keep, "T": T, "R": R, "script": [["drop"]] * idx + [act], "latency": 0}
                     _apply(acc, case)
                     _apply(acc, dict(case, api=True))
         return acc
@@ -210,6 +264,13 @@ def run(ctx):
     for transport in ("udp", "tcp"):
         for keep in (False, True):
             jobs.append((transport, keep, 1.0, 2, "exc-codes"))
+    for transport in ("udp", "aa55", "tcp"):
+        for keep in (False, True):
+            for R in (1, 2) if not ctx.quick else (1,):
+                jobs.append((transport, keep, 1.0, R, "after-prior"))
+    for transport in ("udp", "aa55", "tcp"):
+        for keep in (False, True):
+            jobs.append((transport, keep, 1.0, 1, "cuts"))
     for keep in (False, True):
         for R in (0, 1, 2):
             jobs.append(("tcp", keep, 1.0, R, "connect"))
@@ -227,4 +288,7 @@ def run(ctx):
 
 
 def replay(ctx, case):
+    if case.get("sequence"):
+        _apply_seq(ctx.acc, case)
+        return
     _apply(ctx.acc, case)
